@@ -274,6 +274,16 @@ def allowed_destructive(S, f, n, k):
         a = n.get("args", [])
         if len(a) == 1 and is_ref_to(a[0], f.params[0]["decl"]):
             return True, "removes its parameter (the rotated file just compressed)"
+        if len(a) == 1:
+            # giving up: the archive it has itself just created (<parameter>.gz) is taken away again while the rotated file stays -
+            # accepted when no path through this call also removes the parameter
+            leaves = concat_leaves(deref_local(f, a[0]))
+            if len(leaves) == 2 and is_ref_to(leaves[0], f.params[0]["decl"]) and const_str(leaves[1]) == ".gz":
+                g_ = S.g(f)
+                here = g_.site_of(n)
+                others = [g_.site_of(x) for x in f.calls() if destructive_kind(x) == "remove" and x.get("args") and len(x["args"]) == 1 and is_ref_to(x["args"][0], f.params[0]["decl"])]
+                if here is not None and all(o is not None and not g_.can_reach(here, o) and not g_.can_reach(o, here) for o in others):
+                    return True, "removes <parameter>.gz, its own incomplete output, on a path that keeps the rotated file"
         return False, "remove(%s)" % describe(a[0] if a else None)
     if f.id == S.m["compressFile"].id and k.startswith("open"):
         o = skip_copies(n.get("obj"))
